@@ -89,6 +89,10 @@ type c25Case struct {
 	valCache   map[c25ValKey][]uint64
 	storeCache map[c25Defect][][][][]c25Row
 	failAt     int // storage stub fails on this call (0 = never)
+	// "any storage output": the stub hands the rows of every time slot over in a shuffled
+	// order instead of the one ORDER BY asks for (same permutation for every storage query)
+	shuffled bool
+	shufSeed uint64
 }
 
 type c25OrderCol struct {
@@ -322,6 +326,11 @@ func c25Gen(rnd *rand.Rand, h *requestHandler) *c25Case {
 	}
 	nq := len(c.hw)
 	c.missing = nq > 1 && rnd.IntN(3) == 0 || nq == 1 && false
+	c.shuffled = rnd.IntN(5) == 0
+	c.shufSeed = rnd.Uint64()
+	if c.shuffled {
+		c.missing = false
+	}
 	c.fromEnd = rnd.IntN(2) == 0
 	c.lodsDesc = c.fromEnd && rnd.IntN(2) == 0
 	c.stepMul = []int64{1, 1, 0, 5, 60}[rnd.IntN(5)]
@@ -677,7 +686,7 @@ func (c *c25Case) run(h *requestHandler) (out c25Out, extra []string, err error)
 			c.stubErr = perr.Error()
 			return nil, perr
 		}
-		if ob != c.orderBy { // the handler asks storage for another order than this harness predicted
+		if ob != c.orderBy && !c.shuffled { // the handler asks storage for another order than this harness predicted
 			c.orderByDev = true
 			store = c25SortStore(c.lods[li].rows, cols)[q]
 		}
@@ -806,7 +815,7 @@ func TestVerifC25(t *testing.T) {
 	defer r.Finish()
 	r.SetRule("1–3 disjoint LODs (steps 1/5/15/60 s, 1–4 slots, sometimes a gap; listed oldest first, or newest first for half of the fromEnd requests as handleGetTable does), 0–4 distinct keys per slot over 0–3 raw tags (+ optional string key; group-by listed in tag order or, 1 in 6, shuffled), " +
 		"1–22 requested functions (1–3 storage queries; in a third of the multi-query cases keys are missing from some queries), both directions, " +
-		"from/to markers taken from existing rows or free, limits 1–8 or 100; the storage stub orders each slot as the ORDER BY of the query text it was handed demands. " +
+		"from/to markers taken from existing rows or free, limits 1–8 or 100; the storage stub orders each slot as the ORDER BY of the query text it was handed demands, except in a fifth of the cases where it hands every slot over in a shuffled order (page content not judged there, all order-independent clauses are). " +
 		"Non-trivial = the requested window holds at least one row and storage holds at least two; distinct = distinct (LODs, rows per query, grouping, functions, markers, limit, direction).")
 	r.Assume("storage returns each time slot ordered as the ORDER BY clause of the generated query asks (ties impossible: keys are unique per slot)")
 	r.Assume("scalar formula tsValues.value() is trusted; the oracle judges which (storage query, function) lands in which column")
@@ -854,8 +863,88 @@ func c25Prepare(h *requestHandler, c *c25Case) error {
 	c.orderBy, c.orderCols = ob, cols
 	for i := range c.lods {
 		c.lods[i].store = c25SortStore(c.lods[i].rows, cols)
+		if c.shuffled {
+			st := c.lods[i].store
+			for sl := range st[0] {
+				rnd := rand.New(rand.NewPCG(c.shufSeed, uint64(i*1000+sl)))
+				perm := rnd.Perm(len(st[0][sl]))
+				for q := range st {
+					if len(st[q][sl]) != len(perm) {
+						return fmt.Errorf("shuffled case with differing key sets")
+					}
+					rs := make([]c25Row, len(perm))
+					for k, p := range perm {
+						rs[k] = st[q][sl][p]
+					}
+					st[q][sl] = rs
+				}
+			}
+		}
 	}
 	return nil
+}
+
+// Storage output in an order other than the one asked for: the page content depends on that
+// order and is not judged; everything the statement demands of *any* storage output is.
+func c25JudgeShuffled(r *verifkit.Run, w *verifkit.Worker, c *c25Case, actual *c25Out, extra []string, windowRows int) {
+	w.Count("cases.shuffled_storage_order", 1)
+	r.NotJudged("page_content_with_shuffled_storage_order", 1)
+	spec := c25Spec(c)
+	bad := func(clause, what string) {
+		r.Violation("C25/any-storage-order/"+clause, "storage returned the rows of a time slot in an order other than ORDER BY asks for: "+what, c.witness(actual, &spec, "not attempted (shuffled storage order)"))
+	}
+	if actual.panicked {
+		bad("panic", "getTableFromLODs panics: "+actual.panicMsg)
+		return
+	}
+	for _, e := range extra {
+		bad(e, "row "+e+" does not describe the row")
+	}
+	u := c.union()
+	seen := map[c25Key]bool{}
+	for i, row := range actual.rows {
+		ki := u[row.key]
+		switch {
+		case ki == nil:
+			bad("phantom-row", "a row storage never returned")
+		case len(row.cols) != len(c.funcs):
+			bad("cols", fmt.Sprintf("row has %d columns for %d functions", len(row.cols), len(c.funcs)))
+		default:
+			want := c.specCols(ki)
+			for j := range want {
+				if want[j] != row.cols[j] {
+					bad("values", "a column does not hold the value of its function for this row")
+					break
+				}
+			}
+		}
+		if seen[row.key] {
+			bad("dup", "rows are not unique by (time, tags)")
+		}
+		seen[row.key] = true
+		if !c.inWindow(row.key) {
+			bad("window", "a row outside the requested window")
+		}
+		if i > 0 && !c.before(actual.rows[i-1].key, row.key) {
+			bad("order", "rows are not sorted in the requested direction")
+		}
+		if row.reprTime != row.key.time || !c25EqInts(row.reprTags, c.ownReprTags(row.key)) || row.reprSKey != c.ownReprSKey(row.key) {
+			bad("marker", "a row's paging marker does not describe the row")
+		}
+	}
+	if len(actual.rows) > c.limit {
+		bad("limit", "more rows than the limit")
+	}
+	want := windowRows
+	if want > c.limit {
+		want = c.limit
+	}
+	if len(actual.rows) != want {
+		bad("row-count", fmt.Sprintf("%d rows returned, the window holds %d and the limit is %d", len(actual.rows), windowRows, c.limit))
+	}
+	if actual.hasMore != (windowRows > c.limit) {
+		bad("hasMore", fmt.Sprintf("hasMore=%v although the window holds %d rows and the limit is %d", actual.hasMore, windowRows, c.limit))
+	}
 }
 
 func c25Judge(r *verifkit.Run, w *verifkit.Worker, h *requestHandler, c *c25Case, i int) {
@@ -931,6 +1020,10 @@ func c25Judge(r *verifkit.Run, w *verifkit.Worker, h *requestHandler, c *c25Case
 	}
 	if w.Index == 0 && i < 3 {
 		r.Sample(c.witness(&actual, &spec, ""))
+	}
+	if c.shuffled {
+		c25JudgeShuffled(r, w, c, &actual, extra, windowRows)
+		return
 	}
 	if i < 400 { // self-check of the attribution search: switches outside the mask change nothing
 		app := c.applicable()
